@@ -368,16 +368,21 @@ def grouper(rep, prog, f, keytext):
     where = f.where
     call = None
     m = re.match(r'^(\w+)\(\)$', keytext or '')
+    mf = re.match(r'^<fn .*\.(\w+)>$', keytext or '')
     if m is not None:
+        # an instance of a local class: the key function is its __call__ (state lives on the instance)
         for n in ast.walk(f.node):
             if isinstance(n, ast.ClassDef) and n.name == m.group(1):
                 call = next((x for x in n.body if isinstance(x, ast.FunctionDef) and x.name == '__call__'), None)
+    elif mf is not None:
+        # a local function: state lives in a variable of the enclosing scope
+        call = next((n for n in ast.walk(f.node) if isinstance(n, ast.FunctionDef) and n.name == mf.group(1) and n is not f.node), None)
     if call is None:
-        raise AnalysisError('PGPKey.parse: grouping key %s is not an instance of a local class with __call__' % keytext)
+        raise AnalysisError('PGPKey.parse: grouping key %s is neither an instance of a local class with __call__ nor a local function' % keytext)
     fi = FunctionInfo(call, f.module, None, outer=f)
-    if len(fi.params) != 2:
-        raise AnalysisError('PGPKey.parse: grouping key __call__ takes %s' % fi.params)
-    me, P = fi.params
+    if len(fi.params) != (2 if m is not None else 1):
+        raise AnalysisError('PGPKey.parse: grouping key function takes %s' % fi.params)
+    P = fi.params[-1]
     sig = prog.cls('pgpy.constants', 'PacketTag').enum_members().get('Signature')
     cands = ['%s.header.tag == PacketTag.Signature' % P, '%s.header.tag == %r' % (P, sig)]
     ok = True
@@ -399,10 +404,10 @@ def grouper(rep, prog, f, keytext):
             ok = False
         elif is_sig:
             n_sig += 1
-            ok = ok and not st and r is not None and re.match(r'^%s\.\w+$' % re.escape(me), r) is not None
+            ok = ok and not st and r is not None and P not in re.findall(r'\w+', r)
         else:
             n_head += 1
-            ok = ok and len(st) == 1 and st[0][0].startswith(me + '.') and r == st[0][1] and 'id(%s)' % P in st[0][1]
+            ok = ok and len(st) == 1 and P not in re.findall(r'\w+', st[0][0]) and r == st[0][1] and 'id(%s)' % P in st[0][1]
     state = {st[0][0] for _, st, _ in found if st} | {r for _, st, r in found if not st and r}
     rep.check(ok and n_head >= 1 and n_sig >= 1 and len(state) == 1, 'C14.3', 'PGPKey.parse.PktGrouper', 'group key %s' % found,
               'a new group starts at every packet that is not a signature, and only there '
@@ -414,22 +419,46 @@ def _copy_loops(recs, me, root):
     element is left out, description)} for the summarised loops over `me.<attr>[.items()|.values()]`."""
     out = {}
     for r in recs:
-        m = re.match(r'^%s\.(\w+)(\.items\(\)|\.values\(\))?$' % re.escape(me), r.coll)
-        if m is None:
-            continue
-        elem = _second(r.var) if m.group(2) == '.items()' else r.var if m.group(2) or not r.var.startswith('(') else None
-        if elem is None:
-            continue
-        want = 'copy.copy(%s)' % elem
-        copying = [p for p in r.paths if any(_root(t) == root and v == want for t, v in _attach_events(p[2]))]
-        others = [p for p in r.paths if p not in copying]
-        clean = all(len(_attach_events(p[2])) == 1 and p[0] in ('normal', 'continue') for p in copying) and \
-            all(not _effects(p[2]) and p[0] in ('normal', 'continue') for p in others)
-        left_out = ('or', [('not', conj(r.conds)), any_of(path_cond(p[1]) for p in others)])
-        desc = '%s%s' % (r.conds or '', [[x[0] if x[1] else 'not ' + x[0] for x in p[1]] for p in others] or '')
-        if copying:
-            out[m.group(1)] = (clean, left_out, desc, elem)
+        mc = re.match(r'^(?:itertools\.)?chain\((.*)\)$', r.coll)
+        colls = _split_args(mc.group(1)) if mc else [r.coll]
+        for coll in colls:
+            _copy_loop(out, r, coll, me, root, len(colls) > 1)
     return out
+
+
+def _split_args(text):
+    out, depth, cur = [], 0, ''
+    for ch in text:
+        if ch in '([{':
+            depth += 1
+        elif ch in ')]}':
+            depth -= 1
+        if ch == ',' and depth == 0:
+            out.append(cur.strip())
+            cur = ''
+        else:
+            cur += ch
+    if cur.strip():
+        out.append(cur.strip())
+    return out
+
+
+def _copy_loop(out, r, coll, me, root, chained):
+    m = re.match(r'^%s\.(\w+)(\.items\(\)|\.values\(\))?$' % re.escape(me), coll)
+    if m is None:
+        return
+    elem = _second(r.var) if m.group(2) == '.items()' and not chained else r.var if m.group(2) != '.items()' and not r.var.startswith('(') else None
+    if elem is None:
+        return
+    want = ['copy.copy(%s)' % elem] + (['copy.copy(%s[%s])' % (coll, r.var)] if m.group(2) is None else [])     # a mapping iterates its keys
+    copying = [p for p in r.paths if any(_root(t) == root and v in want for t, v in _attach_events(p[2]))]
+    others = [p for p in r.paths if p not in copying]
+    clean = all(len(_attach_events(p[2])) == 1 and p[0] in ('normal', 'continue') for p in copying) and \
+        all(not _effects(p[2]) and p[0] in ('normal', 'continue') for p in others)
+    left_out = ('or', [('not', conj(r.conds)), any_of(path_cond(p[1]) for p in others)])
+    desc = '%s%s' % (r.conds or '', [[x[0] if x[1] else 'not ' + x[0] for x in p[1]] for p in others] or '')
+    if copying:
+        out[m.group(1)] = (clean, left_out, desc, elem)
 
 
 def _fresh_copy_root(s, clsname):
